@@ -572,7 +572,42 @@ type assignTarget struct {
 	comp   *Comp
 	ref    Term // pointwise index; empty S = whole component
 	mapKey Term // for map entries
+	more   []Term // deeper indices (ghost functions)
 	whole  bool
+}
+
+func (tg assignTarget) indices() []Term {
+	var idx []Term
+	if tg.ref.S != "" {
+		idx = append(idx, tg.ref)
+	}
+	if tg.mapKey.S != "" {
+		idx = append(idx, tg.mapKey)
+	}
+	return append(idx, tg.more...)
+}
+
+func nestedSelect(arr Term, idx []Term) Term {
+	for _, i := range idx {
+		arr = tSelect(arr, i)
+	}
+	return arr
+}
+
+func nestedStore(arr Term, idx []Term, v Term) Term {
+	if len(idx) == 0 {
+		return v
+	}
+	return tStore(arr, idx[0], nestedStore(tSelect(arr, idx[0]), idx[1:], v))
+}
+
+func sortDepth(s Sort) int {
+	d := 0
+	for isArr(s) {
+		_, s = arrParts(s)
+		d++
+	}
+	return d
 }
 
 func (f *FnEnc) assignTargets(spec *FuncSpec, ctx *SpecCtx) []assignTarget {
@@ -601,23 +636,20 @@ func (f *FnEnc) havocTarget(tg assignTarget) {
 		f.st.H[c.Name] = nv
 		return
 	}
-	_, el := arrParts(c.Sort)
-	if tg.mapKey.S != "" {
-		_, inner := arrParts(el)
-		fv := e.freshConst(c.Name+"'at", inner)
-		e.update(f.st, c, tStore(cur, tg.ref, tStore(tSelect(cur, tg.ref), tg.mapKey, fv)))
-		return
-	}
-	fv := e.freshConst(c.Name+"'at", el)
-	if c.ValType != nil {
-		e.fact(e.typingFact(c.ValType, fv, Term{}))
-	}
-	if strings.HasSuffix(c.Name, ".len") || strings.HasSuffix(c.Name, ".cap") || strings.HasSuffix(c.Name, ".off") {
-		if el == SInt {
-			e.fact(tAnd(tLe(tInt(0), fv), tLe(fv, Term{maxLen, SInt})))
+	idx := tg.indices()
+	inner := nestedSelect(cur, idx).Sort
+	fv := e.freshConst(c.Name+"'at", inner)
+	if len(idx) == 1 && !isArr(inner) {
+		if c.ValType != nil {
+			e.fact(e.typingFact(c.ValType, fv, Term{}))
+		}
+		if strings.HasSuffix(c.Name, ".len") || strings.HasSuffix(c.Name, ".cap") || strings.HasSuffix(c.Name, ".off") {
+			if inner == SInt {
+				e.fact(tAnd(tLe(tInt(0), fv), tLe(fv, Term{maxLen, SInt})))
+			}
 		}
 	}
-	e.update(f.st, c, tStore(cur, tg.ref, fv))
+	e.update(f.st, c, nestedStore(cur, idx, fv))
 }
 
 // assignCompNames: component names a contract may write (for loop write sets).
@@ -774,37 +806,52 @@ func (f *FnEnc) checkFrame(vars map[string]binding) {
 		if cur.S == init.S {
 			continue
 		}
-		var excl []Term
 		whole := false
-		isMap := strings.HasPrefix(c.Name, "MV ") || strings.HasPrefix(c.Name, "MH ")
+		depth := sortDepth(c.Sort)
+		var qv []Term
+		var qdecl []string
+		srt := c.Sort
+		for d := 0; d < depth; d++ {
+			var is Sort
+			is, srt = arrParts(srt)
+			v := Term{fmt.Sprintf("i%d!", d), is}
+			qv = append(qv, v)
+			qdecl = append(qdecl, fmt.Sprintf("(%s %s)", v.S, is))
+		}
+		var excl []Term
 		for _, tg := range targets {
 			if tg.comp != c {
 				continue
 			}
-			if tg.whole {
+			idx := tg.indices()
+			if tg.whole || len(idx) == 0 {
 				whole = true
 				continue
 			}
-			if tg.mapKey.S != "" && isMap {
-				excl = append(excl, tAnd(tEq(Term{"r!", SInt}, tg.ref), tEq(Term{"k!", ""}, tg.mapKey)))
-			} else {
-				excl = append(excl, tEq(Term{"r!", SInt}, tg.ref))
+			var eqs []Term
+			for k, t := range idx {
+				if k < len(qv) {
+					eqs = append(eqs, tEq(qv[k], t))
+				}
 			}
+			excl = append(excl, tAnd(eqs...))
 		}
 		if whole {
 			continue
 		}
 		var goal Term
-		if c.Scalar {
+		if c.Scalar || depth == 0 {
 			goal = tEq(cur, init)
-		} else if isMap {
-			_, el := arrParts(c.Sort)
-			ks, _ := arrParts(el)
-			cond := tAnd(app(SBool, "<", app(SInt, "rootof", Term{"r!", SInt}), alloc0), tNot(tOr(excl...)))
-			goal = Term{fmt.Sprintf("(forall ((r! Int) (k! %s)) (=> %s (= (select (select %s r!) k!) (select (select %s r!) k!))))", ks, cond.S, cur.S, init.S), SBool}
 		} else {
-			cond := tAnd(app(SBool, "<", app(SInt, "rootof", Term{"r!", SInt}), alloc0), tNot(tOr(excl...)))
-			goal = Term{fmt.Sprintf("(forall ((r! Int)) (=> %s (= (select %s r!) (select %s r!))))", cond.S, cur.S, init.S), SBool}
+			existed := app(SBool, "<", app(SInt, "rootof", qv[0]), alloc0)
+			if c.IfaceIdx {
+				existed = app(SBool, "<", app(SInt, "rootof", app(SInt, "ifacepl", qv[0])), alloc0)
+			}
+			if qv[0].Sort != SInt {
+				existed = tTrue
+			}
+			cond := tAnd(existed, tNot(tOr(excl...)))
+			goal = Term{fmt.Sprintf("(forall (%s) (=> %s (= %s %s)))", strings.Join(qdecl, " "), cond.S, nestedSelect(cur, qv).S, nestedSelect(init, qv).S), SBool}
 		}
 		f.addObl("frame", c.Name+"@ret"+fmt.Sprint(len(f.rets)), goal, token.NoPos, nil, "assigns clause")
 	}
